@@ -12,7 +12,9 @@ STYLE_NS = {'p': 'u1', 'q': 'u2'}          # bindings on xsl:stylesheet
 SRC = '<s:x xmlns:s="u3" xmlns:p="u9" p:k="v" k="w"><s:y p:m="1"/></s:x>'
 
 # element constructors: (kind, ...)
-ELEMS = ([('lre', pf, u) for (pf, u) in [(None, None), (None, 'u1'), ('p', 'u1'), ('p', 'u2'), ('q', 'u2'), ('n0', 'u1')]]
+ELEMS = ([('lre', pf, u) for (pf, u) in [(None, None), (None, 'u1'), ('p', 'u1'), ('p', 'u2'), ('q', 'u2'), ('n0', 'u1'),
+                                         # a prefix that merely BEGINS with another one in use, bound to the namespace an attribute will ask for
+                                         ('pq', 'u2')]]
          + [('elem', nm, ns) for nm in ('e', 'p:e', 'q:e') for ns in (None, '', 'u1', 'u2', '{u}')]
          + [('copy',), ('copyof',)])
 ATTRS = ([None]
